@@ -20,6 +20,7 @@ pub static PROP: Prop = Prop {
         "every case is self-checked R1(R2(x)) = x; a self-check failure aborts the run as inconclusive (exit 2), never as a violation",
     ],
     extra: super::no_extra,
+    fuzz_runs: 1000000,
 };
 
 #[derive(Debug, Clone, Copy, PartialEq, Eq)]
@@ -531,6 +532,25 @@ fn class_byte(sd: u8) -> u8 {
     }
 }
 
+/// libFuzzer entry: bytes -> the raw values the proptest strategy draws -> the same `build`
+pub fn from_fuzz_bytes(b: &[u8]) -> ScriptCase {
+    let at = |i: usize| b.get(i).copied().unwrap_or(0);
+    let u16at = |i: usize| at(i) as u16 | (at(i + 1) as u16) << 8;
+    let hdr = u16at(0);
+    let fin = u16at(2);
+    let cap_sel = u16at(4);
+    let nseg = (at(6) % 6) as usize;
+    let big = at(7) & 1 == 1;
+    let seg = |k: usize| {
+        let o = 8 + 28 * k;
+        SegRaw { mode: u16at(o), len: u16at(o + 2), seeds: (0..24).map(|i| at(o + 4 + i)).collect() }
+    };
+    let fin_seg = seg(0);
+    let segs = (0..nseg).map(|k| seg(k + 1)).collect();
+    let header = [Header::None, Header::None, Header::None, Header::Macro05, Header::Macro06, Header::Fnc1, Header::EciUtf8, Header::Latin1Str][pick(hdr, 8)];
+    build(segs, fin, fin_seg, header, cap_sel, big)
+}
+
 fn g_script(big: bool) -> BoxedStrategy<ScriptCase> {
     (vec(seg_raw(), 0..=5), any::<u16>(), seg_raw(), any::<u16>(), any::<u16>())
         .prop_map(move |(segs, fin, fin_seg, hdr, cap_sel)| {
@@ -543,8 +563,8 @@ fn g_script(big: bool) -> BoxedStrategy<ScriptCase> {
 fn run(ctx: &Arc<Ctx>) {
     // the repository's own literal streams (decoder tests) as fixed cases are covered by the
     // repository; here: fixed scripts for each final form on a tiny input
-    ctx.run_generated("scripts", "script", ctx.cases(1_500_000, 40_000_000), || g_script(false), check);
-    ctx.run_generated("scripts-big-base256", "script", ctx.cases(60_000, 2_000_000), || g_script(true), check);
+    ctx.run_generated("scripts", "script", ctx.cases(4_000_000, 60_000_000), || g_script(false), check);
+    ctx.run_generated("scripts-big-base256", "script", ctx.cases(150_000, 3_000_000), || g_script(true), check);
 }
 
 fn replay(_ctx: &Ctx, kind: &str, case: &Value) -> Option<Verdict> {
